@@ -1029,6 +1029,11 @@ func (e *Env) convert(v Val, t types.Type) Val {
 			return Val{T: c.convInt(v.T, v.Ty, t, false), Ty: t}
 		}
 	}
+	if fb, ok := v.Ty.Underlying().(*types.Basic); ok {
+		if tb, ok := t.Underlying().(*types.Basic); ok && (fb.Info()&types.IsFloat != 0 || tb.Info()&types.IsFloat != 0) {
+			return Val{T: c.floatConv(v.T, v.Ty, t), Ty: t}
+		}
+	}
 	if c.sortOf(v.Ty) == c.sortOf(t) {
 		v.Ty = t
 		return v
